@@ -16,19 +16,19 @@ Lemma subst_WCons A B c v r : subst_w A B (WCons c v r) = WCons (subst A B c) (s
 Proof. reflexivity. Qed.
 Lemma subst_OSome A B x : subst_o A B (OSome x) = OSome (subst A B x).
 Proof. reflexivity. Qed.
-Lemma rep_TCase A B ws e al : rep A B (TCase ws e al) = TCase (rep_w A B ws) (if vis KCase S__else then rep_o A B e else e) al.
+Lemma rep_TCase cf A B ws e al : rep cf A B (TCase ws e al) = TCase (rep_w cf A B ws) (if cvis cf KCase S__else then rep_o cf A B e else e) al.
 Proof. reflexivity. Qed.
-Lemma rep_TFunc A B n vs sp al : rep A B (TFunc n vs sp al) = TFunc n (if vis KFunc S_args then rep_l A B vs else vs) sp al.
+Lemma rep_TFunc cf A B n vs sp al : rep cf A B (TFunc n vs sp al) = TFunc n (if cvis cf KFunc S_args then rep_l cf A B vs else vs) sp al.
 Proof. reflexivity. Qed.
-Lemma rep_TTuple A B vs al : rep A B (TTuple vs al) = TTuple (if vis KTuple S_values then rep_l A B vs else vs) al.
+Lemma rep_TTuple cf A B vs al : rep cf A B (TTuple vs al) = TTuple (if cvis cf KTuple S_values then rep_l cf A B vs else vs) al.
 Proof. reflexivity. Qed.
-Lemma rep_TArray A B vs al : rep A B (TArray vs al) = TArray (if vis KArray S_values then rep_l A B vs else vs) al.
+Lemma rep_TArray cf A B vs al : rep cf A B (TArray vs al) = TArray (if cvis cf KArray S_values then rep_l cf A B vs else vs) al.
 Proof. reflexivity. Qed.
-Lemma rep_TCons A B x r : rep_l A B (TCons x r) = TCons (rep A B x) (rep_l A B r).
+Lemma rep_TCons cf A B x r : rep_l cf A B (TCons x r) = TCons (rep cf A B x) (rep_l cf A B r).
 Proof. reflexivity. Qed.
-Lemma rep_WCons A B c v r : rep_w A B (WCons c v r) = WCons (if vis KCase S__cases_crit then rep A B c else c) (if vis KCase S__cases_term then rep A B v else v) (rep_w A B r).
+Lemma rep_WCons cf A B c v r : rep_w cf A B (WCons c v r) = WCons (if cvis cf KCase S__cases_crit then rep cf A B c else c) (if cvis cf KCase S__cases_term then rep cf A B v else v) (rep_w cf A B r).
 Proof. reflexivity. Qed.
-Lemma rep_OSome A B x : rep_o A B (OSome x) = OSome (rep A B x).
+Lemma rep_OSome cf A B x : rep_o cf A B (OSome x) = OSome (rep cf A B x).
 Proof. reflexivity. Qed.
 Lemma occ_TCase A ws e al : occ A (TCase ws e al) = occ_w A ws || occ_o A e.
 Proof. reflexivity. Qed.
@@ -58,19 +58,19 @@ Lemma sf_WCons A c v r : sub_foreign_w A (WCons c v r) = sub_foreign A c && sub_
 Proof. reflexivity. Qed.
 Lemma sf_OSome A x : sub_foreign_o A (OSome x) = sub_foreign A x.
 Proof. reflexivity. Qed.
-Lemma cov_TCase A ws e al : covered A (TCase ws e al) = covered_w A ws && cov1 (vis KCase S__else) (covered_o A e) (occ_o A e).
+Lemma cov_TCase cf A ws e al : covered cf A (TCase ws e al) = covered_w cf A ws && cov1 (cvis cf KCase S__else) (covered_o cf A e) (occ_o A e).
 Proof. reflexivity. Qed.
-Lemma cov_TFunc A n vs sp al : covered A (TFunc n vs sp al) = cov1 (vis KFunc S_args) (covered_l A vs) (occ_l A vs).
+Lemma cov_TFunc cf A n vs sp al : covered cf A (TFunc n vs sp al) = cov1 (cvis cf KFunc S_args) (covered_l cf A vs) (occ_l A vs).
 Proof. reflexivity. Qed.
-Lemma cov_TTuple A vs al : covered A (TTuple vs al) = cov1 (vis KTuple S_values) (covered_l A vs) (occ_l A vs).
+Lemma cov_TTuple cf A vs al : covered cf A (TTuple vs al) = cov1 (cvis cf KTuple S_values) (covered_l cf A vs) (occ_l A vs).
 Proof. reflexivity. Qed.
-Lemma cov_TArray A vs al : covered A (TArray vs al) = cov1 (vis KArray S_values) (covered_l A vs) (occ_l A vs).
+Lemma cov_TArray cf A vs al : covered cf A (TArray vs al) = cov1 (cvis cf KArray S_values) (covered_l cf A vs) (occ_l A vs).
 Proof. reflexivity. Qed.
-Lemma cov_TCons A x r : covered_l A (TCons x r) = covered A x && covered_l A r.
+Lemma cov_TCons cf A x r : covered_l cf A (TCons x r) = covered cf A x && covered_l cf A r.
 Proof. reflexivity. Qed.
-Lemma cov_WCons A c v r : covered_w A (WCons c v r) = cov1 (vis KCase S__cases_crit) (covered A c) (occ A c) && cov1 (vis KCase S__cases_term) (covered A v) (occ A v) && covered_w A r.
+Lemma cov_WCons cf A c v r : covered_w cf A (WCons c v r) = cov1 (cvis cf KCase S__cases_crit) (covered cf A c) (occ A c) && cov1 (cvis cf KCase S__cases_term) (covered cf A v) (occ A v) && covered_w cf A r.
 Proof. reflexivity. Qed.
-Lemma cov_OSome A x : covered_o A (OSome x) = covered A x.
+Lemma cov_OSome cf A x : covered_o cf A (OSome x) = covered cf A x.
 Proof. reflexivity. Qed.
 Lemma cnt_TCase C ws e al : count C (TCase ws e al) = count_w C ws + count_o C e.
 Proof. reflexivity. Qed.
@@ -86,4 +86,4 @@ Lemma cnt_WCons C c v r : count_w C (WCons c v r) = count C c + count C v + coun
 Proof. reflexivity. Qed.
 Lemma cnt_OSome C x : count_o C (OSome x) = count C x.
 Proof. reflexivity. Qed.
-#[global] Hint Rewrite subst_TCase subst_TFunc subst_TTuple subst_TArray subst_TCons subst_WCons subst_OSome rep_TCase rep_TFunc rep_TTuple rep_TArray rep_TCons rep_WCons rep_OSome occ_TCase occ_TFunc occ_TTuple occ_TArray occ_TCons occ_WCons occ_OSome sf_TCase sf_TFunc sf_TTuple sf_TArray sf_TCons sf_WCons sf_OSome cov_TCase cov_TFunc cov_TTuple cov_TArray cov_TCons cov_WCons cov_OSome cnt_TCase cnt_TFunc cnt_TTuple cnt_TArray cnt_TCons cnt_WCons cnt_OSome : rt15.
+Ltac rw15 := rewrite ?subst_TCase, ?subst_TFunc, ?subst_TTuple, ?subst_TArray, ?subst_TCons, ?subst_WCons, ?subst_OSome, ?rep_TCase, ?rep_TFunc, ?rep_TTuple, ?rep_TArray, ?rep_TCons, ?rep_WCons, ?rep_OSome, ?occ_TCase, ?occ_TFunc, ?occ_TTuple, ?occ_TArray, ?occ_TCons, ?occ_WCons, ?occ_OSome, ?sf_TCase, ?sf_TFunc, ?sf_TTuple, ?sf_TArray, ?sf_TCons, ?sf_WCons, ?sf_OSome, ?cov_TCase, ?cov_TFunc, ?cov_TTuple, ?cov_TArray, ?cov_TCons, ?cov_WCons, ?cov_OSome, ?cnt_TCase, ?cnt_TFunc, ?cnt_TTuple, ?cnt_TArray, ?cnt_TCons, ?cnt_WCons, ?cnt_OSome in *.
